@@ -97,8 +97,17 @@ class Walker:
             raise AnalysisError(f"{fi.site(loop)}: os.walk loop target is not (root, dirs, files)")
         self.root, self.dirs, self.files = (e.id for e in t.elts)
         self.W = loop.iter.args[0] if loop.iter.args else None
+        derived = {self.files}
+        for n in ast.walk(loop):
+            if isinstance(n, ast.Assign) and len(n.targets) == 1 and isinstance(n.targets[0], ast.Name):
+                v = n.value
+                if isinstance(v, ast.Call) and attr_chain(v.func) in ("list", "sorted", "tuple") and v.args:
+                    v = v.args[0]
+                if isinstance(v, (ast.ListComp, ast.GeneratorExp)) and isinstance(v.generators[0].iter, ast.Name) and v.generators[0].iter.id in derived:
+                    derived.add(n.targets[0].id)
+        self.derived_files = derived
         self.file_loops = [n for n in ast.walk(loop) if isinstance(n, ast.For) and n is not loop
-                           and isinstance(n.iter, ast.Name) and n.iter.id == self.files]
+                           and isinstance(n.iter, ast.Name) and n.iter.id in derived]
 
     # ---- hidden pruning
     def dirs_pruning(self) -> tuple[str, Optional[ast.AST]]:
@@ -124,6 +133,10 @@ class Walker:
     def comp_filter(self, node, src: str):
         """value is [x for x in <src> if pred] -> (var, pred-expr) ; pred conjunction of ifs"""
         v = node.value if isinstance(node, ast.Assign) else node
+        if isinstance(v, ast.Name):
+            ds = [d for d, _ in local_defs(self.fi, v.id) if d is not None]
+            if len(ds) == 1:
+                v = ds[0]
         if isinstance(v, ast.Call) and attr_chain(v.func) in ("list", "sorted") and v.args:
             v = v.args[0]
         if isinstance(v, (ast.ListComp, ast.GeneratorExp)) and len(v.generators) == 1:
@@ -137,9 +150,9 @@ class Walker:
         return None
 
     def files_filter(self):
-        """assignment files = [f for f in files if pred] in the walk body, before the per-file loop"""
+        """assignment <name> = [f for f in files if pred] in the walk body, before the per-file loop"""
         for st in self.loop.body:
-            if isinstance(st, ast.Assign) and any(isinstance(t, ast.Name) and t.id == self.files for t in st.targets):
+            if isinstance(st, ast.Assign) and any(isinstance(t, ast.Name) and t.id in self.derived_files for t in st.targets):
                 return st
         return None
 
@@ -179,7 +192,8 @@ def check_hidden(ctx, rid: str, w: Walker, key: str):
         ctx.viol(rid, f"{key}/dirs-pruning", fi.site(w.loop), "the directory list of os.walk is never pruned: hidden directories are walked")
     ff = w.files_filter()
     if ff is not None:
-        cf = w.comp_filter(ff, w.files)
+        src = [x.id for x in ast.walk(ff.value) if isinstance(x, ast.Name) and x.id in w.derived_files]
+        cf = w.comp_filter(ff, src[0] if src else w.files)
         if cf is None:
             raise AnalysisError(f"{fi.site(ff)}: {w.files} is reassigned by something other than a filter comprehension over it")
         var, pred = cf
@@ -196,11 +210,21 @@ def check_hidden(ctx, rid: str, w: Walker, key: str):
             for st in fl.body:
                 if isinstance(st, ast.If) and v and v in {n.id for n in ast.walk(st.test) if isinstance(n, ast.Name)}:
                     from .core import body_exits
-                    if body_exits(st.body) == "continue":
+                    lits = {n.value for n in ast.walk(st.test) if isinstance(n, ast.Constant) and isinstance(n.value, str)}
+                    if lits != {"."}:
+                        continue
+                    if body_exits(st.body) == "continue" and not st.orelse:
                         c = classify_hidden_pred(st.test, v, False)
-                        if c == "exact":
-                            ctx.ok(rid, fi.site(st), f"{key}: hidden files skipped by `continue` at the head of the per-file loop")
-                            done = True
+                    elif not body_exits(st.body) and st is fl.body[-1] or (len(fl.body) == 1):
+                        c = classify_hidden_pred(st.test, v, True)      # `if not hidden: <whole rest of the body>`
+                    else:
+                        continue
+                    if c == "exact":
+                        ctx.ok(rid, fi.site(st), f"{key}: hidden files skipped at the head of the per-file loop")
+                        done = True
+                    else:
+                        ctx.viol(rid, f"{key}/files-filter", fi.site(st), f"per-file hidden test {unparse(st.test)} is not 'starts with a dot': {c}")
+                        done = True
         if not done:
             ctx.viol(rid, f"{key}/files-filter", fi.site(w.loop), "files whose name starts with a dot are not filtered out")
     # the per-file loop must iterate the filtered name
@@ -219,10 +243,56 @@ def analysing_calls(prj: Project, w: Walker, callee_names: tuple[str, ...]) -> l
     return out
 
 
+def excluded_wrapper(prj: Project, fi: FuncInfo, call: ast.Call):
+    """If `call` invokes a project predicate all of whose returns are False or (bool of) is_excluded(<path relative to
+    cwd/root>, <spec parameter>): the inner is_excluded call with the spec argument mapped to the caller's argument."""
+    import copy
+    tg, kind = prj.resolve_call(fi, call)
+    if kind not in ("direct", "self") or len(tg) != 1:
+        return None
+    h = prj.func(tg[0].qual)          # inlined view of the helper
+    rets = [r.value for r in h.walk() if isinstance(r, ast.Return) and r.value is not None]
+    if not rets:
+        return None
+    inner = None
+    for r in rets:
+        r = expand(h, r)
+        while isinstance(r, ast.Call) and attr_chain(r.func) == "bool" and r.args:
+            r = r.args[0]
+        if isinstance(r, ast.Constant) and r.value in (False, None):
+            continue
+        if isinstance(r, ast.Call) and prj.resolve_callee_name(h, r).endswith(":is_excluded") and len(r.args) >= 2:
+            inner = r
+            continue
+        return None
+    if inner is None:
+        return None
+    params = h.params()
+    bound = dict(zip(params, call.args))
+    for k in call.keywords:
+        if k.arg:
+            bound[k.arg] = k.value
+
+    class S(ast.NodeTransformer):
+        def visit_Name(self, n):
+            return copy.deepcopy(bound[n.id]) if n.id in bound and isinstance(n.ctx, ast.Load) else n
+    return S().visit(copy.deepcopy(inner))
+
+
 def classify_guard(prj: Project, fi: FuncInfo, g: Guard) -> tuple[str, Optional[ast.Call]]:
     """What a guard on the way to the analysing call is about."""
     t = g.test
     neg = not g.polarity
+    # `path.is_absolute() or <X>` that holds: for relative paths X holds
+    if isinstance(t, ast.BoolOp) and isinstance(t.op, ast.Or) and not neg:
+        rest = [v for v in t.values if "is_absolute()" not in unparse(v)]
+        if len(rest) == 1 and len(rest) < len(t.values):
+            return classify_guard(prj, fi, Guard(rest[0], True, g.origin))
+    # `not path.is_absolute() and <X>` that does NOT hold: for relative paths X does not hold
+    if isinstance(t, ast.BoolOp) and isinstance(t.op, ast.And) and neg:
+        rest = [v for v in t.values if "is_absolute()" not in unparse(v)]
+        if len(rest) == 1 and len(rest) < len(t.values):
+            return classify_guard(prj, fi, Guard(rest[0], False, g.origin))
     while isinstance(t, ast.UnaryOp) and isinstance(t.op, ast.Not):
         t = t.operand
         neg = not neg
@@ -232,11 +302,37 @@ def classify_guard(prj: Project, fi: FuncInfo, g: Guard) -> tuple[str, Optional[
             return ("not-excluded" if neg else "excluded-only"), t
         if nm.endswith(".match_file"):
             return ("not-excluded" if neg else "excluded-only"), t
+        w = excluded_wrapper(prj, fi, t)
+        if w is not None:
+            return ("not-excluded" if neg else "excluded-only"), w
     if isinstance(t, ast.Compare) and len(t.ops) == 1 and isinstance(t.ops[0], (ast.In, ast.NotIn)):
         right = term(fi, t.comparators[0])
         if "Languages.by_name" in right:
             pos = isinstance(t.ops[0], ast.In) != neg
             return ("language-supported" if pos else "language-unsupported-only"), None
-    if isinstance(t, ast.Name) or isinstance(t, ast.Attribute):
-        return "other:" + unparse(g.test), None
+    # language = Languages.by_name.get(name); if language: ... / if language is not None
+    tt = t
+    flip = False
+    if isinstance(tt, ast.Compare) and len(tt.ops) == 1 and isinstance(tt.ops[0], (ast.Is, ast.IsNot, ast.Eq, ast.NotEq)) \
+            and isinstance(tt.comparators[0], ast.Constant) and tt.comparators[0].value is None:
+        flip = isinstance(tt.ops[0], (ast.Is, ast.Eq))
+        tt = tt.left
+    if isinstance(tt, (ast.Name, ast.Call, ast.Subscript)):
+        tx = term(fi, tt)
+        if "Languages.by_name.get(" in tx or (isinstance(tt, ast.Name) and "Languages.by_name[" in tx and False):
+            pos = (not neg) != flip
+            return ("language-supported" if pos else "language-unsupported-only"), None
+    if getattr(g, "expanded", False):
+        return "flag", None
+    # a per-file / per-name dot test: `if file.startswith('.'): continue`
+    names = {n.id for n in ast.walk(t) if isinstance(n, ast.Name)}
+    lits = {n.value for n in ast.walk(t) if isinstance(n, ast.Constant) and isinstance(n.value, str)}
+    if len(names) == 1 and lits == {"."}:
+        v = next(iter(names))
+        try:
+            c = classify_hidden_pred(t, v, keeps_when_true=not neg)
+        except AnalysisError:
+            c = None
+        if c == "exact":
+            return "not-hidden", None
     return "other:" + unparse(g.test), None
